@@ -2,7 +2,7 @@
 # tools/longfuzz.sh <minutes-per-campaign> <ID>...
 # Long coverage-guided campaigns beyond the thorough tier (exploration only, not evidence): for each
 # property a `tape` campaign (and a `bytes` campaign where the property has a raw-bytes oracle),
-# 2 libFuzzer workers each, all campaigns in parallel.  Crashing inputs are kept under
+# LF_WORKERS (default 2) libFuzzer workers each, all campaigns in parallel.  Crashing inputs are kept under
 # out/longfuzz/<ID>/; anything found must be re-run through ./check --replay in /verif.
 set -u
 cd "$(dirname "$(readlink -f "$0")")/.."
@@ -16,7 +16,7 @@ for ID in "$@"; do
     dir="$ROOT/out/longfuzz/$ID/$target"; rm -rf "$dir"; mkdir -p "$dir/corpus" "$dir/artifacts" "$dir/logs"
     [ "$target" = bytes ] && cp "$ROOT"/corpus/bytes-seed/* "$dir/corpus/" 2>/dev/null
     ( cd "$dir/logs" && VERIF_PROP="$ID" "$BIN/$target" "$dir/corpus" -max_total_time=$((MIN * 60)) -len_control=0 -max_len=4096 \
-        -jobs=2 -workers=2 -artifact_prefix="$dir/artifacts/" -print_final_stats=1 -rss_limit_mb=4096 -timeout=60 > "$dir/driver.log" 2>&1 ) &
+        -jobs=${LF_WORKERS:-2} -workers=${LF_WORKERS:-2} -artifact_prefix="$dir/artifacts/" -print_final_stats=1 -rss_limit_mb=4096 -timeout=60 > "$dir/driver.log" 2>&1 ) &
   done
 done
 wait
